@@ -309,9 +309,9 @@ def run_task(task, acc):
         cfg = G.SPECS[name]["cfgs"][ci]
 
         def gen():
-            for how, al in (("nd", (0.0, 2.0, NAN)), ("list", (0.0, 2.0, NAN, None)), ("ma", (0.0, 2.0, NAN))):
+            for how, al in (("nd", (0.0, 2.0, NAN)), ("list", (0.0, 2.0, NAN, None)), ("ma", (0.0, 2.0, NAN)), ("ma2", (0.0, 2.0, NAN))):
                 for x in alpha.all_seqs(al, 0, n + 1 if how == "nd" else n):
-                    if how == "ma" and not any(s == NAN for s in x):
+                    if how in ("ma", "ma2") and not any(s == NAN for s in x):
                         continue
                     if how == "list" and not any(s is None for s in x) and len(x) > 2:
                         continue  # the None-free lists only differ from the ndarray run by the carrier (C15)
